@@ -962,6 +962,70 @@ impl Space for CorpusSecondSession {
     }
 }
 
+/// Lattice workbooks that go through structural calls AFTER they were filled and right before the save: whatever
+/// bookkeeping those calls leave behind (row table, indexes, spans), the file must still carry every cell of the model.
+const POST_OPS: [&str; 5] = ["cleanup", "insert-row-then-remove-it", "move-block-down", "remove-last-cell+cleanup", "copy-row-styling+cleanup"];
+struct PostOps {
+    cases: Vec<(u32, usize)>,
+}
+impl Space for PostOps {
+    fn len(&self) -> u64 {
+        self.cases.len() as u64 * 2
+    }
+    fn describe(&self, i: u64) -> Value {
+        let (bits, op) = self.cases[(i / 2) as usize];
+        let names: Vec<&str> = (0..FEATURES.len()).filter(|k| bits & (1 << k) != 0).map(|k| FEATURES[k]).collect();
+        json!({"kind":"post-ops","features": names, "bits": bits, "before_save": POST_OPS[op], "light": i % 2 == 1})
+    }
+    fn tags(&self, i: u64) -> Vec<String> {
+        let (bits, op) = self.cases[(i / 2) as usize];
+        let mut t: Vec<String> = (0..FEATURES.len()).filter(|k| bits & (1 << k) != 0).map(|k| FEATURES[k].to_string()).collect();
+        t.push(format!("post-op:{}", POST_OPS[op]));
+        t
+    }
+    fn run(&self, i: u64, sink: &mut Sink) {
+        let (bits, op) = self.cases[(i / 2) as usize];
+        let light = i % 2 == 1;
+        let tl = self.tags(i);
+        let tags: Vec<&str> = tl.iter().map(|x| x.as_str()).collect();
+        let case = self.describe(i);
+        let r = std::panic::catch_unwind(|| {
+            let mut b = build_lattice(bits, false);
+            for idx in 0..b.get_sheet_count() {
+                let ws = b.get_sheet_mut(&idx).unwrap();
+                let (hc, hr) = ws.get_highest_column_and_row();
+                match POST_OPS[op] {
+                    "cleanup" => ws.cleanup(),
+                    "insert-row-then-remove-it" => {
+                        ws.insert_new_row(&2, &1);
+                        ws.remove_row(&2, &1);
+                    }
+                    "move-block-down" => {
+                        ws.move_range("A1:B2", &((hr + 3) as i32), &0);
+                    }
+                    "remove-last-cell+cleanup" => {
+                        ws.remove_cell((hc, hr));
+                        ws.cleanup();
+                    }
+                    _ => {
+                        ws.copy_row_styling(&1, &(hr + 2), None, None);
+                        ws.cleanup();
+                    }
+                }
+            }
+            b
+        });
+        match r {
+            Err(e) => sink.violations.push(Violation::new("save-succeeds", &format!("build-panicked:{}", panic_class(&panic_msg(&e))), &tags, case, panic_msg(&e))),
+            Ok(b) => {
+                if let Some(bytes) = check_package(&b, light, &tags, &case, sink, "") {
+                    sink.hashes.push(fnv(&strip_volatile(&bytes)));
+                }
+            }
+        }
+    }
+}
+
 pub fn space(tier: Tier, id: &str) -> Option<Box<dyn Space>> {
     match id {
         "lattice" => Some(Box::new(Lattice { subsets: subsets(tier) })),
@@ -984,6 +1048,19 @@ pub fn space(tier: Tier, id: &str) -> Option<Box<dyn Space>> {
             Some(Box::new(SecondSessionLattice { cases }))
         }
         "corpus-second-session" => Some(Box::new(CorpusSecondSession { files: corpus_files(), big: tier == Tier::Thorough })),
+        "post-ops" => {
+            let n = FEATURES.len();
+            let mut cases = vec![];
+            let max = if tier == Tier::Thorough { 2 } else { 1 };
+            for bits in 0u32..(1 << n) {
+                if bits.count_ones() <= max || bits == (1 << n) - 1 {
+                    for op in 0..POST_OPS.len() {
+                        cases.push((bits, op));
+                    }
+                }
+            }
+            Some(Box::new(PostOps { cases }))
+        }
         "lazy-corpus" => Some(Box::new(LazyCorpus { files: corpus_files(), big: tier == Tier::Thorough })),
         _ => None,
     }
@@ -994,7 +1071,7 @@ fn replay(tier: Tier, case: &Value) -> Vec<Violation> {
 }
 
 fn run(ctx: &Ctx) -> i32 {
-    let ids = ["lattice", "channels", "corpus", "lazy-corpus", "second-session", "corpus-second-session"];
+    let ids = ["lattice", "channels", "corpus", "lazy-corpus", "second-session", "corpus-second-session", "post-ops"];
     let spaces = ids.iter().map(|id| (*id, space(ctx.tier, id).unwrap())).collect();
     let nsub = subsets(ctx.tier).len();
     run_e1(
@@ -1003,7 +1080,7 @@ fn run(ctx: &Ctx) -> i32 {
             spaces,
             cfg: PoolCfg { chunk: 8, case_timeout: std::time::Duration::from_secs(120), ..Default::default() },
             level: "exploration",
-            rule: "every workbook of (i) the feature-subset lattice over 11 annotation/structure features x {standard, light writer} x {macro payload, none}, (ii) every escape channel x applicable special string x both writers, (iii) every corpus file loaded and re-saved by both writers, (v) every lattice workbook with at most 1 (thorough: 2) features saved and reloaded, then given one more feature on its first and last sheet, (vi) every corpus file loaded eagerly and given, on every sheet, one more object with a relationship of its own (table / comment / external link), (iv) every corpus file opened lazily, its first or last sheet materialised and given a text cell with an external link while the other sheets stay unloaded (model = an eagerly loaded twin with the same edit), is written to memory and handed to the independent Python validator+decoder; oracle = no validity problem and decoded cells/formulas/hyperlinks/merges/defined names/sheet list equal the pre-save model dump. distinct_nontrivial = distinct (part list, part sizes[, channel, text]) signatures of the produced packages".into(),
+            rule: "every workbook of (i) the feature-subset lattice over 11 annotation/structure features x {standard, light writer} x {macro payload, none}, (ii) every escape channel x applicable special string x both writers, (iii) every corpus file loaded and re-saved by both writers, (v) every lattice workbook with at most 1 (thorough: 2) features saved and reloaded, then given one more feature on its first and last sheet, (vi) every corpus file loaded eagerly and given, on every sheet, one more object with a relationship of its own (table / comment / external link), (vii) lattice workbooks (at most 1 feature, thorough 2, and all at once) that go through cleanup / insert+remove row / move_range / remove_cell+cleanup / copy_row_styling+cleanup on every sheet right before the save, (iv) every corpus file opened lazily, its first or last sheet materialised and given a text cell with an external link while the other sheets stay unloaded (model = an eagerly loaded twin with the same edit), is written to memory and handed to the independent Python validator+decoder; oracle = no validity problem and decoded cells/formulas/hyperlinks/merges/defined names/sheet list equal the pre-save model dump. distinct_nontrivial = distinct (part list, part sizes[, channel, text]) signatures of the produced packages".into(),
             alphabets: json!({"features": FEATURES, "subsets": nsub, "writers": 2, "macro": 2, "channels": CHANNELS, "specials": SPECIALS.iter().map(|s| s.0).collect::<Vec<_>>(), "channel_cases": channel_cases().len(), "corpus_files": corpus_files().len()}),
             bounds: json!({"lattice": if ctx.tier == Tier::Quick {"subsets of size <=2 and complements of size <=1 (cut of the 2^11 lattice, stated as a bound)"} else {"all 2^11 subsets"}, "corpus": if ctx.tier == Tier::Quick {"files <= 600 kB"} else {"all files"}}),
             exhaustive: true,
